@@ -8,6 +8,8 @@
         Read n / ReadTimeout / ReadEOF     what clientConn.Read returned (inside a transport or the relay: no step)
         Verdict t r  what transport t answered in this round
         Return       the handler returned
+        Row          (connections with an ASN of their own) that ASN's row of the real table after the batch: must equal
+                     what this connection's steps added up to - the per-connection comparison
       Each event selects the handler step of Accounting.tla; the counter calls of the step are applied to the model's
       tables, which accumulate over the whole batch (counter updates commute, so replaying the per-connection logs one
       after the other is sound for the final state).  Then
@@ -32,6 +34,13 @@ SnapshotMatches(e) ==
                                 /\ \A x \in ACells : Val(r.n, x) = tab[r.fam][r.asn].n[x]
   /\ \A f \in Fams, a \in Asns : tab[f][a] # None => \E r \in AsSet(e.st.tab) : r.fam = f /\ r.asn = a
   /\ e.active = stat.active
+
+\* the real per-ASN row of a connection that had an ASN of its own (logged right behind the connection's events)
+RowMatches(e) ==
+  /\ e.asn \in Asns
+  /\ IF e.present THEN /\ tab[e.fam][e.asn] # None /\ tab[e.fam][e.asn].cc = e.cc
+                        /\ \A x \in ACells : Val(e.n, x) = tab[e.fam][e.asn].n[x]
+     ELSE tab[e.fam][e.asn] = None
 
 TraceInit == Init /\ l = 1 /\ cur = [fam |-> "v4", asn |-> "", cc |-> "", occ |-> 0]
 \* a new batch: a fresh connStats
@@ -63,6 +72,7 @@ TraceStep ==
                                              [] ph = "done"  -> Unch
                                              [] OTHER -> FALSE
        [] e.a \in {"Write", "Close", "Send", "PeerClose", "Expire"} -> Unch
+       [] e.a = "Row"         -> hs[C].ph = "done" /\ RowMatches(e) /\ Unch
        [] e.a = "Quiescent"   -> hs[C].ph \in {"idle", "done"} /\ SnapshotMatches(e) /\ Unch
        [] e.a = "Ledger"      -> LedgerRecOK(e) /\ Unch
        [] OTHER               -> FALSE
